@@ -519,3 +519,53 @@ package control
 //@ func compileRoutingMatch
 //@   ensures err == nil ==> decodes(match, result0)
 //@   ensures err != nil <==> !(match.Type <= consts.MatchType_Fallback)
+
+// ---------------------------------------------------------------------------------------------
+// C13 (sequential core only): the per-tuple owner count. Every method runs under t.mu; Cond.Wait is the
+// only point where other goroutines run (modelled as: everything may have changed, except that the
+// table itself is never replaced -- assumed).
+//@ func (*udpConnStateTracker).retain
+//@   requires t != nil && t.entries != nil && nonnilvals(t.entries)
+//@   modifies *
+//@   at call Cond).Wait#1 assume-after t.entries != nil && nonnilvals(t.entries)
+//@   ensures has(t.entries, key) && t.entries[key] != nil && !t.entries[key].deleting
+//@   loop 1
+//@     invariant t.entries != nil && nonnilvals(t.entries)
+
+// a release record is produced exactly for an entry whose count goes from 1 to 0; it is flagged deleting
+// and stays in the table (so that retain/forget of the same tuple wait for the kernel deletion)
+//@ func (*udpConnStateTracker).BeginRelease
+//@   requires t != nil ==> t.entries != nil
+//@   requires t != nil ==> nonnilvals(t.entries)
+//@   modifies *
+//@   at call builtin:append#1 assert entry != nil && entry.refs == 0 && entry.deleting && has(t.entries, key) && t.entries[key] == entry
+//@   ensures forall j int {result[j].entry} :: 0 <= j && j < len(result) ==> result[j].entry != nil && result[j].entry.deleting && result[j].entry.refs == 0
+//@   let e0() = old(t.entries[keys[0]])
+//@   let live0() = len(keys) == 1 && old(has(t.entries, keys[0])) && !old(t.entries[keys[0]].deleting)
+//@   ensures live0() && old(t.entries[keys[0]].refs) >= 2 ==> len(result) == 0 && e0().refs == old(t.entries[keys[0]].refs) - 1 && !e0().deleting
+//@   ensures live0() && old(t.entries[keys[0]].refs) == 1 ==> len(result) == 1 && result[0].entry == e0()
+//@   loop 1
+//@     invariant t != nil && t.entries != nil
+//@     invariant $idx == 0 ==> len(releases) == 0 && e0().refs == old(t.entries[keys[0]].refs) && e0().deleting == old(t.entries[keys[0]].deleting) && t.entries == old(t.entries) && has(t.entries, keys[0]) == old(has(t.entries, keys[0])) && t.entries[keys[0]] == e0()
+//@     invariant $idx == 1 && live0() && old(t.entries[keys[0]].refs) >= 2 ==> len(releases) == 0 && e0().refs == old(t.entries[keys[0]].refs) - 1 && !e0().deleting
+//@     invariant $idx == 1 && live0() && old(t.entries[keys[0]].refs) == 1 ==> len(releases) == 1 && releases[0].entry == e0()
+//@     invariant nonnilvals(t.entries)
+//@     invariant forall j int {releases[j].entry} :: 0 <= j && j < len(releases) ==> releases[j].entry != nil && releases[j].entry.deleting && releases[j].entry.refs == 0
+
+// only the entry recorded by BeginRelease is removed (a tuple re-created meanwhile is left alone)
+//@ func (*udpConnStateTracker).FinalizeRelease
+//@   requires t != nil ==> t.entries != nil
+//@   requires forall j int {releases[j]} :: 0 <= j && j < len(releases) ==> releases[j].entry != nil
+//@   dyncalls noeffect
+//@   modifies *
+//@   at call builtin:delete#1 assert has(t.entries, release.key) && t.entries[release.key] == release.entry
+
+// forget drops one owner; the table entry goes away only with the last one and never while a kernel
+// deletion is in flight
+//@ func (*udpConnStateTracker).forget
+//@   requires t != nil && t.entries != nil && nonnilvals(t.entries)
+//@   modifies *
+//@   at call Cond).Wait#1 assume-after t.entries != nil && nonnilvals(t.entries)
+//@   at call builtin:delete#1 assert has(t.entries, key) && t.entries[key] == entry && entry != nil && !entry.deleting && entry.refs <= 1
+//@   loop 1
+//@     invariant t.entries != nil && nonnilvals(t.entries)
